@@ -243,6 +243,9 @@ func (g *gen) attrs(n *gnode) {
 		}
 	}
 	n.style = int64(g.r.Next() & 0x7ff)
+	if g.r.Chance(12) {
+		n.style |= 0x800 // disabled: true - validation and defaults do not depend on it
+	}
 	if !g.r.Chance(35) {
 		n.style &^= 0x31 // env references only in a third of the nodes
 	}
@@ -623,6 +626,9 @@ func (w *render) node(n sx.Tree, ind int, dash bool) {
 		}
 		scalar("buffersize", v)
 	}
+	if style&0x800 != 0 {
+		scalar("disabled", "true")
+	}
 	if style&0x200 != 0 {
 		scalar("discard_on_full_buffer", "true")
 		lines = append(lines, func(ind int, prefix string) {
@@ -690,7 +696,7 @@ func emptyMapping(n sx.Tree) bool {
 	style := n.At(7).Int()
 	return n.At(0).Int() == 48 && style&0x2 == 0 && n.At(1).Len() == 0 && n.At(2).Int() == 0 && style&0x4 == 0 &&
 		n.At(3).Int() == 0 && style&0x8 == 0 && style&0x200 == 0 && n.At(5).Len() == 0 && !n.At(4).Bool() &&
-		style&0x40 == 0 && n.At(6).Len() == 0 && style&0x400 == 0
+		style&0x40 == 0 && n.At(6).Len() == 0 && style&0x400 == 0 && style&0x800 == 0
 }
 
 // normalise: a handler (or node) that would be written as a mapping without any key gets an explicit `name: ""`
